@@ -1131,3 +1131,42 @@ pub fn gen_scenario(seed: u64, pf: &Profile) -> Scenario {
         ops,
     }
 }
+
+/// Base history for the C07 crash-point sweep: fault-free builds and edits, one swept
+/// invocation, two fault-free invocations after it.  Returns the index of the swept op.
+pub fn gen_sweep_base(seed: u64) -> (Scenario, usize) {
+    let mut pf = Profile::for_property("C07");
+    pf.name = "C07sweep";
+    pf.crash_pct = 0;
+    pf.dbcrash_pct = 0;
+    pf.ioerr_pct = 0;
+    pf.sigint_pct = 0;
+    pf.trunc_pct = 0;
+    pf.restat_pct = 0;
+    pf.bogus_pct = 0;
+    pf.fail_pct = 10;
+    pf.max_ops = 6;
+    pf.final_clean_invocations = 2;
+    let mut sc = gen_scenario(seed ^ 0x5EED_0000_0000, &pf);
+    sc.seed = seed;
+    sc.profile = "C07sweep".into();
+    let invs: Vec<usize> = sc.ops.iter().enumerate().filter(|(_, o)| matches!(o, Op::Invoke(_))).map(|(i, _)| i).collect();
+    // the swept invocation is the last one before the two final fault-free ones
+    let idx = if invs.len() >= 3 { invs[invs.len() - 3] } else { invs[0] };
+    if let Op::Invoke(spec) = &mut sc.ops[idx] {
+        spec.faults = Faults::default();
+        spec.restat = false;
+    }
+    (sc, idx)
+}
+
+pub fn sweep_point(base: &Scenario, idx: usize, w: usize, k: usize, err: bool) -> Scenario {
+    let mut sc = base.clone();
+    if let Op::Invoke(spec) = &mut sc.ops[idx] {
+        spec.faults.crash_db_write = Some(w);
+        spec.faults.crash_db_bytes = k;
+        spec.faults.db_err = err;
+        spec.faults.orphans_finish = (w + k) % 2 == 0;
+    }
+    sc
+}
